@@ -130,6 +130,28 @@ SUM.update({
  "C19-e": "`HasPerm` compares with `strings.EqualFold`: a caller holding `Read` passes a method tagged `read`",
  "C20-e": "`waitReadCloser.Read` uses `io.ReadAtLeast(r, p, 1)`: a zero-length read returns ErrShortBuffer, which is latched, and the upload is released",
 })
+SUM.update({
+ "C01-f": "a positional parameter whose JSON is `null` skips the decoder and reaches the method as the zero value: a `json.RawMessage` argument `null` arrives nil, a type whose `UnmarshalJSON` reacts to null is not told",
+ "C02-f": "the `xrpc.cancel` request reuses the caller's `ready` channel: the loop's acknowledgement of the id-less request is taken for the call's response (id mismatch error, real response lost)",
+ "C03-f": "a failed request write is also pushed into the loop's own one-slot `readError` channel: the second such failure before the loop reads it blocks the loop for good",
+ "C04-f": "HTTP notifications are posted from a background goroutine with the caller's context: with the usual `defer cancel()` the request is aborted and the handler never runs",
+ "C05-f": "the float-domain clamp of `backoff.next` removed: beyond attempt ~62 the conversion overflows to a negative delay and the redial loop spins",
+ "C06-f": "'keep the context for channel methods' is decided at registration as `nOut == 2 && kind == Chan`: a method whose only result is a channel loses its handler context as soon as it returns",
+ "C07-f": "the channel-id counter is decremented when an output channel closes: a subscription opened later gets the id of a stream that is still open",
+ "C08-f": "decode targets of channel values come from a per-subscription pool and are not zeroed: slices and maps the caller already holds are overwritten by later elements",
+ "C09-f": "bodies are parsed with a `Decoder` and trailing data detected with `More()`: a stray closing `}` or `]` after a valid request is accepted",
+ "C10-f": "the log line for a response to a request never made dereferences `frame.Error` when there is no result: a frame with neither kills the process",
+ "C11-f": "`val` asks whether the type *as registered* implements the codec / marshalable interfaces: value-registered types with a pointer-receiver reading half arrive as zero values",
+ "C12-f": "the arity check becomes `len(ps) < nParams`: requests with surplus positional params run the handler",
+ "C13-f": "the reply for a recovered panic no longer includes the wrapped error: `fatal error calling 'X'` and nothing about a panic",
+ "C14-f": "the ping ticker sets a write deadline of two ping intervals and never clears it: a large response drained slowly is cut off mid-frame",
+ "C15-f": "the per-request `ready` channel becomes unbuffered: closeInFlight blocks on a caller that is busy sending its cancel request, and the teardown deadlocks",
+ "C16-f": "notifications run inline on the frame executor: a reverse call made from a notification's handler can never be answered",
+ "C17-f": "the pong reply's write deadline is `now + c.timeout`, which is `now` on servers: servers never answer pings, and clients with a timeout below the server's ping interval drop healthy links",
+ "C18-f": "the request channel gets a buffer of 8: requests queued there when the loop sees `stop` are stranded, their callers wait for ever",
+ "C19-f": "`strings.TrimLeft(token, \"Bearer \")` (a cutset) instead of `TrimPrefix`: tokens beginning with B, e, a, r or a space lose their first characters",
+ "C20-f": "the upload handler answers 400 when the request has no body (`http.NoBody`, i.e. Content-Length 0): a zero-length reader parameter never reaches its handler",
+})
 for n in sorted(mat):
     m = mat[n]
     ob = "yes" if m.get("failed_obligations") else "–"
@@ -147,7 +169,7 @@ for pid in sorted(T):
     out.append("**Theorems** (%d, all `Closed under the global context`): %s.\n" % (len(names), ", ".join("`%s`" % x for x in names)))
     out.append("**What they say, and the tie.** " + t['text'] + "\n")
     out.append("**Correspondence runs.** " + nt['fam'] + "\n")
-    for suf in ("-a", "-b", "-c", "-d", "-e"):
+    for suf in ("-a", "-b", "-c", "-d", "-e", "-f"):
         m = mat.get(pid + suf)
         if m:
             parts = []
